@@ -80,6 +80,11 @@ func cacheSet(args []string) {
 		fatal("%v", err)
 	}
 	b := loadBundle(args[2], id)
+	// VERIF_REMOVE_DIR=1: the cache directory is cleaned away after the cache value was created (cache directories may be
+	// cleaned at any time; a long-running process keeps its FileCache)
+	if os.Getenv("VERIF_REMOVE_DIR") != "" {
+		os.RemoveAll(args[0])
+	}
 	// VERIF_FSIZE_LIMIT=<bytes>: writes beyond this file size fail with EFBIG after a PARTIAL write (fault inside the write step)
 	if lim := os.Getenv("VERIF_FSIZE_LIMIT"); lim != "" {
 		n, _ := strconv.ParseUint(lim, 10, 64)
